@@ -79,14 +79,20 @@ def gen(rng, tier):
            'auth': rng.choice(['dict', 'list', 'pred', 'apred', 'false']),
            'admin_mode': rng.choice(['development', 'production']),
            'read_only': rng.random() < 0.5,
-           'nadmin': rng.randrange(0, 3)}
+           'nadmin': rng.randrange(0, 3),
+           'coroutine': rng.random() < 0.6}
     attempts = [gen_payload(rng) for _ in range(rng.randrange(2, 7))]
     app = []
     npeers = rng.randrange(2, 4)
+
+    def beh():
+        # what the application's connect handler does
+        return rng.choice(['accept'] * 6 + ['false', 'cre', 'kick', 'enter',
+                                            'emit', 'pause_sever'])
     for p in range(npeers):
         for ns in NSS:
             if rng.random() < 0.8:
-                app.append(['connect', p, ns])
+                app.append(['connect', p, ns, beh()])
     tok = 0
     for _ in range(rng.randrange(6, 18)):
         k = rng.random()
@@ -119,7 +125,7 @@ def gen(rng, tier):
         elif k < 0.95:
             app.append(['sdisc', p, ns])
         else:
-            app.append(['connect', p, ns])
+            app.append(['connect', p, ns, beh()])
     return {'cfg': cfg, 'attempts': attempts, 'app': app}
 
 
@@ -209,14 +215,43 @@ def _run_twin(case, cfg, instrumented, w):
     rec = w.rec
     srv = w.add_server('s', namespaces=list(NSS), async_handlers=False)
 
+    pending_beh = {}
+    sid_names = {}
+    import socketio as _sio
+
     def plan(label, args, ev):
         if label[3] == 'ev':
             return [('ret', ['ok', args[1] if len(args) > 1 else None])]
+        if label[3] == 'connect':
+            ns = label[2]
+            sid = args[0]
+            if sid not in sid_names:
+                sid_names[sid] = 'SID%d' % len(sid_names)
+            b = pending_beh.pop(ns, 'accept')
+            if b == 'false':
+                return [('ret', False)]
+            if b == 'cre':
+                return [('raise', _sio.exceptions.ConnectionRefusedError(
+                    'nope', {'c': 1}))]
+            if b == 'kick':
+                return [('do', lambda: srv.disconnect(sid, namespace=ns)),
+                        ('ret', None)]
+            if b == 'enter':
+                return [('do', lambda: srv.enter_room(sid, 'r1',
+                                                      namespace=ns)),
+                        ('ret', None)]
+            if b == 'emit':
+                return [('do', lambda: srv.emit('hello', 'all',
+                                                namespace=ns)),
+                        ('ret', None)]
+            if b == 'pause_sever':
+                return [('pause', 0.01), ('ret', None)]
         return [('ret', None)]
+    coroutine = bool(cfg.get('coroutine')) and w.mode == 'async'
     for ns in NSS:
         for evn in ('connect', 'disconnect', 'ev'):
             srv.on(evn, w.make_handler(('s', 'func', ns, evn), plan,
-                                       coroutine=False), namespace=ns)
+                                       coroutine=coroutine), namespace=ns)
     admin = None
     if instrumented:
         admin = srv.instrument(auth=configured_auth(cfg),
@@ -272,7 +307,6 @@ def _run_twin(case, cfg, instrumented, w):
     # (3) the application history
     traces = {}
     outstanding = {}
-    sid_names = {}
 
     def norm(x):
         """Rename session ids by order of appearance."""
@@ -289,14 +323,29 @@ def _run_twin(case, cfg, instrumented, w):
     for op in case['app']:
         k = op[0]
         if k == 'connect':
-            _, p, ns = op
+            p, ns = op[1], op[2]
+            b = op[3] if len(op) > 3 else 'accept'
             if p not in sc.peers or not sc.alive(p):
                 sc.open(p)
             if sc.sid(p, ns):
                 continue
+            pending_beh[ns] = b
+            if b == 'pause_sever' and (w.mode == 'thread' or coroutine):
+                # the transport is lost while the connect handler runs
+                pe = sc.peers[p]
+                pe.send_pkt(sio.CONNECT, ns, None, None)
+                w.advance(0.005)
+                pe.sever(0.0)
+                w.settle()
+                sc.drop_transport(p)
+                pending_beh.pop(ns, None)
+                continue
             sid = sc.connect(p, ns)
-            if sid:
+            pending_beh.pop(ns, None)
+            if sid and sid not in sid_names:
                 sid_names[sid] = 'SID%d' % len(sid_names)
+            if sid and b == 'kick':
+                sc.forget(p, ns)     # it was disconnected by the handler
         elif k in ('enter', 'leave'):
             _, p, ns, room = op
             sid = sc.sid(p, ns)
@@ -349,7 +398,7 @@ def _run_twin(case, cfg, instrumented, w):
         before = {(p, ns): sorted(map(repr, srv.rooms(sid, ns)))
                   for (p, ns), sid in sc.live_sids()}
         marks = {p: len(sc.peers[p].rx) for p in sc.peers
-                 if not str(p).startswith('adm')}
+                 if not str(p).startswith('adm') and sc.alive(p)}
         adm = admins[0]
         some = sc.live_sids()
         for ns in NSS:
